@@ -157,11 +157,23 @@ def check(ctx, run):
         modes = [v['name'] for v in f.adts['jsonpath::selector::Mode']['variants']]
         ps, _ = explore(b)
         table = {}
+        KNOWN_W = ('build_values', 'build_scalar_array', 'build_predicate_result')
         for p in ps:
             if p.end[0] != 'return' or is_call(deref_all(p.ret), 'FromResidual::from_residual'):
                 continue
-            writers = [canon(e[1]).split('::')[-1] for e in p.calls() if called(e[1], 'Selector::build_values', 'Selector::build_scalar_array', 'Selector::build_predicate_result', 'VecDeque::truncate')]
-            trunc = [const_of(e[2][1]) for e in p.calls() if called(e[1], 'VecDeque::truncate')]
+            writers = []
+            limit = None
+            for e in p.calls():
+                nm = canon(e[1]).split('::')[-1]
+                if called(e[1], 'Selector::build_values', 'Selector::build_scalar_array', 'Selector::build_predicate_result'):
+                    writers.append(nm)
+                elif nm in ('truncate', 'take') and len(e[2]) == 2 and const_of(e[2][1]) is not None:
+                    limit = const_of(e[2][1])
+                else:
+                    c_ = e[5].get('callee', {}) if isinstance(e[5], dict) else {}
+                    if c_.get('resolved_local') and nm not in ('find_positions', 'is_predicate', 'is_jsonb') and \
+                            any(a.get('k') in ('copy', 'move') and 'Vec<u8>' in str(b.local_ty(a['place']['local']).get('s', '')) for a in e[5].get('args', [])):
+                        writers.append('?' + nm)       # a crate-local function that receives the output buffer and is not a writer this rule knows by name
             pred = [c for c in p.conds if is_call(c[0], 'JsonPath::is_predicate')]
             md = [c for c in p.conds if c[0][0] == 'discr' and 'mode' in show(c[0])]
             if not writers:
@@ -171,44 +183,62 @@ def check(ctx, run):
                 rng = None
             elif md and md[0][1] == 'eq':
                 key = modes[md[0][2]]
-                # count interval for Mixed
+                # count interval for Mixed: whatever the path establishes about the number of positions
                 cnt = None
-                for c in p.conds:
-                    t = c[0]
-                    if t[0] == 'bin' and any(is_call(strip_casts(x), 'VecDeque::len') for x in (t[2], t[3])):
-                        atom = [x for x in (t[2], t[3]) if is_call(strip_casts(x), 'VecDeque::len')][0]
-                        pf = PathFacts([c])
-                        cnt = pf.range_of(atom).intersect(IntervalSet([(0, INF)]))
+                atoms = {strip_casts(x) for c in p.conds for x in subterms(c[0]) if is_call(strip_casts(x), 'VecDeque::len', 'Vec::len')}
+                if atoms:
+                    pf = PathFacts(p.conds, nonneg=lambda a: True)
+                    try:
+                        for atom in atoms:
+                            r_ = pf.range_of_term(atom).intersect(IntervalSet([(0, INF)]))
+                            cnt = r_ if cnt is None else cnt.intersect(r_)
+                    except Exception:
+                        cnt = None
                 rng = cnt
             else:
                 continue
             # mode must be tested only after the predicate test said "not a predicate"
             if key != 'predicate' and not (pred and pred[0][2] is False):
-                table.setdefault(key, []).append((('<no predicate test first>',), rng))
+                table.setdefault(key, []).append((('<no predicate test first>',), rng, limit))
             else:
-                table.setdefault(key, []).append((tuple(writers), rng))
+                table.setdefault(key, []).append((tuple(writers), rng, limit))
         loc = f'{b.file}:{b.line}'
-        exp = {'predicate': {('build_predicate_result',)}, 'All': {('build_values',)}, 'First': {('truncate', 'build_values')}, 'Array': {('build_scalar_array',)}}
+        exp = {'predicate': ('build_predicate_result',), 'All': ('build_values',), 'First': ('build_values',), 'Array': ('build_scalar_array',)}
         for k, want in exp.items():
-            got = {w for w, r in table.get(k, [])}
-            ok = got == want
-            (run.proved if ok else run.violation)('R15.2', b.path, f'mode[{k}]', ' then '.join(sorted(want)[0]) if ok else f'mode {k} runs {sorted(got)}, expected {sorted(want)}', loc)
-        tr = [const_of(e[2][1]) for p in ps for e in p.calls() if called(e[1], 'VecDeque::truncate')]
-        if tr and any(x != 1 for x in tr):
-            run.violation('R15.2', b.path, 'mode[First]/count', f'first mode keeps {set(tr)} positions, not 1', loc)
+            rows = table.get(k, [])
+            got = {w for w, r, l_ in rows}
+            lims = {l_ for w, r, l_ in rows}
+            if not rows or any(x.startswith('?') for w in got for x in w):
+                run.undecided('R15.2', b.path, f'mode[{k}]', f'the writer run for mode {k} was not recognised by name ({sorted(got)}; renamed or restructured?): not decided', loc)
+            elif got == {want} and (k != 'First' or lims == {1}) and (k == 'First' or lims <= {None}):
+                run.proved('R15.2', b.path, f'mode[{k}]', ('keep 1 position then ' if k == 'First' else '') + want[0], loc)
+            elif got == {want} and k == 'First' and lims == {None}:
+                run.violation('R15.2', b.path, f'mode[{k}]', 'first mode writes the positions without limiting them to one: every selected item is returned', loc)
+            elif got == {want} and k == 'First':
+                run.violation('R15.2', b.path, 'mode[First]/count', f'first mode keeps {sorted(map(str, lims))} positions, not 1', loc)
+            elif got == {want}:
+                run.violation('R15.2', b.path, f'mode[{k}]', f'mode {k} limits the positions to {sorted(map(str, lims))} before writing them', loc)
+            else:
+                run.violation('R15.2', b.path, f'mode[{k}]', f'mode {k} runs {sorted(got)}, expected {want}', loc)
         mixed = table.get('Mixed', [])
         arr = IntervalSet([])
         val = IntervalSet([])
-        for w, r in mixed:
-            if r is None:
+        unread_m = not mixed
+        for w, r, l_ in mixed:
+            if any(x.startswith('?') for x in w) or r is None:
+                unread_m = True
                 continue
             if w == ('build_scalar_array',):
                 arr = arr.union(r)
             elif w == ('build_values',):
                 val = val.union(r)
-        ok = arr == IntervalSet([(2, INF)]) and val == IntervalSet([(0, 1)]) and all(w in (('build_scalar_array',), ('build_values',)) for w, r in mixed)
-        (run.proved if ok else run.violation)('R15.2', b.path, 'mode[Mixed]', 'one array for >= 2 items, the items themselves for 0 or 1' if ok else
-                                               f'mixed mode builds an array for counts {arr} and separate values for counts {val}; it must be [2,inf) and [0,1]', loc)
+        ok = arr == IntervalSet([(2, INF)]) and val == IntervalSet([(0, 1)]) and all(w in (('build_scalar_array',), ('build_values',)) for w, r, l_ in mixed)
+        if ok:
+            run.proved('R15.2', b.path, 'mode[Mixed]', 'one array for >= 2 items, the items themselves for 0 or 1', loc)
+        elif unread_m:
+            run.undecided('R15.2', b.path, 'mode[Mixed]', 'how mixed mode chooses between one array and separate values was not read (writers renamed, or the count is tested in a form this rule does not read): not decided', loc)
+        else:
+            run.violation('R15.2', b.path, 'mode[Mixed]', f'mixed mode builds an array for counts {arr} and separate values for counts {val}; it must be [2,inf) and [0,1]', loc)
     else:
         run.undecided('R15.2', SEL + 'select', 'table', 'method not found (anchor lost)')
     # ---- R15.3 offsets and entry words
